@@ -3,6 +3,7 @@ package command
 import (
 	"context"
 	"fmt"
+	"github.com/google/gopacket"
 	"math/rand"
 	"os"
 	"sync"
@@ -150,18 +151,34 @@ func startPortScanEngine(ctx context.Context, conf *packetScanConfig) error {
 	if len(conf.scanRange.Ports) == 0 {
 		return startPacketScanEngine(ctx, conf)
 	}
+	// all engine runs share one scan method, and the receiver goroutine of a finished run may
+	// still be handling its last frame when the receiver of the next run gets its first one
+	method := &lockedPacketMethod{PacketMethod: conf.scanMethod}
 	for i := 0; i < len(conf.scanRange.Ports); i += chunkSize {
 		end := i + chunkSize
 		if end > len(conf.scanRange.Ports) {
 			end = len(conf.scanRange.Ports)
 		}
 		newConf := *conf
+		newConf.scanMethod = method
 		newConf.scanRange.Ports = conf.scanRange.Ports[i:end]
 		if err := startPacketScanEngine(ctx, &newConf); err != nil {
 			return err
 		}
 	}
 	return nil
+}
+
+// lockedPacketMethod lets one receiver at a time decode a frame into the buffers of the scan method
+type lockedPacketMethod struct {
+	scan.PacketMethod
+	mu sync.Mutex
+}
+
+func (m *lockedPacketMethod) ProcessPacketData(data []byte, ci *gopacket.CaptureInfo) error {
+	m.mu.Lock()
+	defer m.mu.Unlock()
+	return m.PacketMethod.ProcessPacketData(data, ci)
 }
 
 func startPacketScanEngine(ctx context.Context, conf *packetScanConfig) error {
